@@ -13,6 +13,17 @@ type FileFingerprint struct {
 	ModTime time.Time `json:"mod_time"`
 	Size    int64     `json:"size"`
 	CRC32   uint32    `json:"crc32,omitempty"`
+
+	// SnapshotIndex and SnapshotTerm identify the snapshot the file was
+	// fingerprinted for. Fingerprints written by older versions don't
+	// have them (both zero).
+	SnapshotIndex uint64 `json:"snapshot_index,omitempty"`
+	SnapshotTerm  uint64 `json:"snapshot_term,omitempty"`
+}
+
+// HasSnapshot returns true if the fingerprint records which snapshot it was taken for.
+func (f *FileFingerprint) HasSnapshot() bool {
+	return f.SnapshotIndex != 0 || f.SnapshotTerm != 0
 }
 
 // WriteToFile saves the fingerprint to a file and fsyncs it to disk.
